@@ -11,7 +11,7 @@ def jobs(tier):
             for pl in ((0, 2) if kk == 0 else (0,)):
                 out.append(Job('resp-k%d-v%d-p%d' % (kk, vl, pl), 'ctrl_resp.cpp', 'h_c29_response', [kk, vl, pl], reach=['parsed'], snippets=SN, timeout=1500, bounds='field kind %d, value of %d characters, payload %d B' % (kk, vl, pl)))
     SNC = {k: v for k, v in SN.items() if k.startswith('SNIP_C_')}
-    RW = {'^_ZNSt10filesystem7__cxx114path14_M_split_cmptsEv$': 'h_path_split_stub4', '?^_ZNSt10filesystem8absoluteERKNS_7__cxx114pathE$': 'h_fs_absolute4', '?^_ZNKSt10filesystem7__cxx114path11parent_pathEv$': 'h_fs_parent_empty4'}
+    RW = {'^_ZNSt10filesystem7__cxx114path14_M_split_cmptsEv$': 'h_path_split_stub4', '?^_ZNSt10filesystem8absoluteERKNS_7__cxx114pathE$': 'h_fs_absolute4', '?^_ZNKSt10filesystem7__cxx114path11parent_pathEv$': 'h_fs_parent_empty4', '?^_ZNSt10filesystem8absoluteERKNS_7__cxx114pathERSt10error_code$': 'h_fs_absolute_ec4'}
     for n in ((0, 2) if tier == 'quick' else (0, 1, 2, 3)):
         out.append(Job('list-%d' % n, 'ctrl_full.cpp', 'h_c29_list', [n], defines=['VERIF_WITH_CLIENT=1'], reach=['listed'], snippets=SNC, redirect=RW, timeout=2400, bounds='LIST through the whole daemon/ControlServer.cpp (handle_client, handle_list, send_response) and the client parse_response, store of %d chunks with symbolic remaining lifetimes -1 s .. 2.875 s' % n))
     for n in ((230,) if tier == 'quick' else (230, 500)):
